@@ -28,7 +28,7 @@ SortedSeq(S) == CHOOSE s \in [1..Cardinality(S) -> S] :
 Empty ==
     [exists |-> [r \in Req |-> FALSE], hasMe |-> [r \in Req |-> FALSE], raws |-> [r \in Req |-> <<>>],
      exec |-> [r \in Req |-> <<>>], fReq |-> [r \in Req |-> 0], fHash |-> [d \in DS |-> 0],
-     fData |-> [d \in DS |-> 0], len |-> [d \in DS |-> 1000], cached |-> [d \in DS |-> TRUE]]
+     fData |-> [d \in DS |-> 0], len |-> [d \in DS |-> 1000], cached |-> [d \in DS |-> TRUE], dmg |-> [d \in DS |-> FALSE]]
 
 GInit ==
     /\ sc = Empty /\ Init0 /\ InitCache
@@ -71,6 +71,8 @@ GSetup ==
         lens   == [d \in DS |-> IF d \in fixed THEN 1000 ELSE PickOf(DB(d) + 1, LenSeq)]
         \* short executables are mostly cached: the fetch path with fewer than 25 bytes is a known crash
         cach   == [d \in DS |-> IF lens[d] < 25 THEN ~Chance(DB(d) + 2, 12) ELSE Chance(DB(d) + 2, 2)]
+        \* now and then the cache holds a damaged file under the hash of an executable that is not cached
+        dmgv   == [d \in DS |-> ~cach[d] /\ lens[d] >= 25 /\ Chance(DB(d) + 5, 4)]
         exec   == [r \in Req |-> [k \in 1..cnt[r] |-> OutcomeAt(QB(r) + 7 + k, k)]]
         fReq   == [r \in Req |-> BudgetAt(QB(r) + 12, 12, 6)]
         fHash  == [d \in DS |-> BudgetAt(DB(d) + 3, 16, 6)]
@@ -82,12 +84,12 @@ GSetup ==
               hasMe  |-> [r \in Req |-> want[r] = "me"],
               raws   |-> [r \in Req |-> IF want[r] \in {"me", "other"} THEN [k \in 1..cnt[r] |-> [eid |-> k - 1, ds |-> dsOf[r][k]]] ELSE <<>>],
               exec   |-> [r \in Req |-> IF want[r] \in {"me", "other"} THEN exec[r] ELSE <<>>],
-              fReq   |-> fReq, fHash |-> fHash, fData |-> fData, len |-> lens, cached |-> cach]
+              fReq   |-> fReq, fHash |-> fHash, fData |-> fData, len |-> lens, cached |-> cach, dmg |-> dmgv]
     /\ cache' = {d \in DS : cach[d]}
     /\ wish' = [maxTry |-> MaxTry,
                 reqs |-> [r \in 1..nreq |-> [want |-> want[r], shape |-> shape[r], raws |-> dsOf[r], fReq |-> fReq[r],
                                              tx |-> tx[r], exec |-> exec[r]]],
-                ds   |-> [d \in DS |-> [len |-> lens[d], cached |-> cach[d], fHash |-> fHash[d], fData |-> fData[d]]]]
+                ds   |-> [d \in DS |-> [len |-> lens[d], cached |-> cach[d], dmg |-> dmgv[d], fHash |-> fHash[d], fData |-> fData[d]]]]
     /\ groups' = [g \in 1..2 |-> {r \in Req : tx[r] = g}]
     /\ script' = <<>>
     /\ UNCHANGED <<rnd, booted, pend, announced, intx, txs, hpc, hidx, wpc, results, collected, msgs, crashed, reported, delivered, out>>
